@@ -89,7 +89,7 @@ PROPS = {
     ),
     "C14": dict(
         level="proof",
-        specs=["specs.c14_probe"],
+        specs=["specs.c14_probe", "specs.c03_route"],       # (c03_route: the enumeration steps of Machine, tagged C14 - the model lists exactly the working chips and links)
         bounded=["bounded.c14_probe"],
         trusted=["wire layout of the SC&MP info reply (specs/c14_probe.py) and bounded/_scamp.py machine model"],
     ),
